@@ -673,6 +673,9 @@ func (x *pmmx) ruleAllocMarks() {
 		}
 		if nb == 0 {
 			bad = "no bitmap store found"
+			if len(x.freeDelegates(gf)) == 1 {
+				bad = "" // freed through the mark role, whose encoding is the obligation above
+			}
 		}
 		c.check(bad == "", "C01.R4", key, fmt.Sprintf("%d bitmap store(s) use word fdiv6(frame-start) and bit 63-((frame-start) mod 64), the encoding of the allocation scan", nb), bad, m.pos(fn.Pos()))
 	}
@@ -770,6 +773,14 @@ func (x *pmmx) ruleClearOnlyByFree() {
 		args := callCommon(in).Args
 		b, ok := constBool(args[len(args)-1])
 		key := fmt.Sprintf("mark-calls %s #%d", m.fnName(in.Parent()), ncalls)
+		if in.Parent() == x.bFree && ok && b != wantFlag {
+			// the free role itself may free through the mark role (its guards are C03.R2's)
+			gfree := newIG(m, x.bFree, nil)
+			if dn := x.freeDelegates(gfree); len(dn) == 1 && gfree.Ins[dn[0]] == in {
+				c.ok("C01.R5", key, "the free role frees the frame it was asked to free through the mark role", m.pos(in.Pos()))
+				continue
+			}
+		}
 		c.check(ok && b == wantFlag, "C01.R5", key, "passes the constant markReserved", "the mark role is called with a flag that is not the constant markReserved: frames can be freed behind the allocator's back", m.pos(in.Pos()))
 	}
 	// mm.frameAllocator
@@ -1497,6 +1508,8 @@ func (x *pmmx) c03r2() {
 	c.floor("C03.R2", 3)
 	g := newIG(m, x.bFree, nil)
 	stores := x.allocatorStores(g)
+	// (freeing through the mark role modifies the allocator where it is called)
+	stores = append(stores, x.freeDelegates(g)...)
 	poolOK := func(f Fact) bool {
 		return cmpMatch(f, token.GEQ, func(v ssa.Value) bool { _, ok := m.resultOf(v, x.poolFor, -1); return ok }, isZeroConst)
 	}
@@ -1667,6 +1680,9 @@ func (x *pmmx) c03r3() {
 		}
 		if len(bss) == 0 {
 			bad = "no bitmap store found"
+			if len(x.freeDelegates(g)) == 1 {
+				bad = "" // freed through the mark role, whose own accounting is checked
+			}
 		}
 		c.check(bad == "", "C03.R3", key, fmt.Sprintf("%d bit store(s), each paired with exactly one matching freeCount and reservedPages update", len(bss)), bad, m.pos(fn.Pos()))
 	}
@@ -1818,4 +1834,34 @@ func (x *pmmx) c03r4() {
 		check(fn, false)
 	}
 	check(x.replayRole, true)
+}
+
+// freeDelegates: the free role hands the update to the mark role with the
+// constant markFree for the frame being freed and the pool that was looked up
+// for it (instead of clearing the bit and adjusting the counters itself). It
+// returns the call nodes.
+func (x *pmmx) freeDelegates(g *IG) []int {
+	m := x.m
+	if x.markRole == nil || x.bFree == nil || g.Fn != x.bFree {
+		return nil
+	}
+	markFree := m.lookupConst("mm/pmm", "markFree")
+	if markFree == nil {
+		return nil
+	}
+	want, _ := constBool(markFree.Value)
+	frameP := paramNamed(x.bFree, "frame")
+	var out []int
+	for _, n := range g.callNodes(x.markRole) {
+		a := g.callArgs(n)
+		if len(a) < 4 {
+			continue
+		}
+		b, ok := constBool(a[len(a)-1])
+		_, fromLookup := m.resultOf(a[1], x.poolFor, -1)
+		if ok && b == want && fromLookup && frameP != nil && stripConv(a[2]) == ssa.Value(frameP) {
+			out = append(out, n)
+		}
+	}
+	return out
 }
